@@ -82,6 +82,112 @@ theorem zip_asis_not_framed : ¬ Framed (zipIterAsIs (α := Nat) (γ := Nat)) :=
   have := h.2 [1] false (.next 0)
   simp [zipIterAsIs] at this
 
+/-! ### Per-subscription budgets -/
+
+theorem retry_framed {α} : Framed (retry (α := α)) := by
+  refine ⟨fun _ => rfl, fun g l a => ?_⟩
+  simp only [retry]
+  split
+  · rfl
+  · cases a with
+    | next v => rfl
+    | completed => rfl
+    | error e => cases hl : l.left with
+      | none => simp
+      | some k => cases k <;> simp
+
+theorem repeat_framed {α} : Framed (repeat_ (α := α)) := by
+  refine ⟨fun _ => rfl, fun g l a => ?_⟩
+  simp only [repeat_]
+  split
+  · rfl
+  · cases a with
+    | next v => rfl
+    | error e => rfl
+    | completed => cases hl : l.left with
+      | none => simp
+      | some k => cases k <;> simp
+
+theorem retry_step_done {α} (n : Option Nat) (l : Option Nat) (x : Notif α) :
+    (retry (α := α)).step n ⟨l, true⟩ x = (n, ⟨l, true⟩, []) := rfl
+theorem retry_step_next {α} (n : Option Nat) (l : Option Nat) (v : α) :
+    (retry (α := α)).step n ⟨l, false⟩ (.next v) = (n, ⟨l, false⟩, [.emit (.next v)]) := rfl
+theorem retry_step_completed {α} (n : Option Nat) (l : Option Nat) :
+    (retry (α := α)).step n ⟨l, false⟩ .completed = (n, ⟨l, true⟩, [.emit .completed]) := rfl
+theorem retry_step_error_last {α} (n : Option Nat) (e : Err) :
+    (retry (α := α)).step n ⟨some 0, false⟩ (.error e) = (n, ⟨some 0, true⟩, [.emit (.error e)]) := rfl
+theorem retry_step_error_more {α} (n : Option Nat) (k : Nat) (e : Err) :
+    (retry (α := α)).step n ⟨some (k + 1), false⟩ (.error e) = (n, ⟨some k, false⟩, [.resubscribe]) := rfl
+
+/-- one subscription alone, with `k` further attempts available, resubscribes at most `k` times -/
+theorem retry_budget_local {α} (n : Option Nat) : ∀ (evs : List (Option (Notif α))) (k : Nat) (d : Bool),
+    (∀ e ∈ evs, e.isSome) →
+    countResub (runI (retry (α := α)) n (some ⟨some k, d⟩) evs) ≤ k := by
+  intro evs
+  induction evs with
+  | nil => intro k d _; simp [runI, countResub]
+  | cons e rest ih =>
+    intro k d hs
+    have hrest : ∀ e ∈ rest, e.isSome := fun e he => hs e (by simp [he])
+    cases e with
+    | none => have := hs none (by simp); simp at this
+    | some x =>
+      simp only [runI]
+      cases d with
+      | true =>
+        rw [retry_step_done]
+        simpa [countResub] using ih k true hrest
+      | false =>
+        cases x with
+        | next v =>
+          rw [retry_step_next]
+          simpa [countResub, BOut.isResub] using ih k false hrest
+        | completed =>
+          rw [retry_step_completed]
+          simpa [countResub, BOut.isResub] using ih k true hrest
+        | error e =>
+          cases k with
+          | zero =>
+            rw [retry_step_error_last]
+            simpa [countResub, BOut.isResub] using ih 0 true hrest
+          | succ k' =>
+            rw [retry_step_error_more]
+            have := ih k' false hrest
+            simp only [countResub, List.singleton_append] at this ⊢
+            rw [List.countP_cons_of_pos (by rfl)]
+            omega
+
+/-- **retry_fresh.** `retry(n)` (`n ≥ 1`) subscribed any number of times, sequentially or
+overlapping, in any interleaving: every subscription behaves as if it were alone, and in particular
+resubscribes to the source at most `n - 1` times — its budget is its own. -/
+theorem retry_fresh {α} (n : Nat) (acts : List (Act (Notif α))) (i : Nat)
+    (once : (restrict i acts).head? = some none ∧ ∀ e ∈ (restrict i acts).tail, e.isSome) :
+    outputsOf i (runG (retry (α := α)) (some n) [] acts) = runI retry (some n) none (restrict i acts) ∧
+    countResub (outputsOf i (runG (retry (α := α)) (some n) [] acts)) ≤ n - 1 := by
+  have h1 := resubscribe_same (retry (α := α)) retry_framed (some n) acts i
+  refine ⟨h1, ?_⟩
+  rw [h1]
+  cases hr : restrict i acts with
+  | nil => simp [runI, countResub]
+  | cons e rest =>
+    rw [hr] at once
+    simp only [List.head?_cons, Option.some.injEq, List.tail_cons] at once
+    rw [once.1]
+    simp only [runI]
+    exact retry_budget_local (some n) rest (n - 1) false once.2
+
+/-- **repeat_fresh.** Same for `repeat(n)`: each subscription gets its own rounds. -/
+theorem repeat_fresh {α} (n : Option Nat) (acts : List (Act (Notif α))) (i : Nat) :
+    outputsOf i (runG (repeat_ (α := α)) n [] acts) = runI repeat_ n none (restrict i acts) :=
+  resubscribe_same (repeat_ (α := α)) repeat_framed n acts i
+
+/-- two overlapping subscriptions to `retry(2)`: each gets its one retry -/
+example :
+    runG (retry (α := Nat)) (some 2) []
+      [.create 0, .create 1, .act 0 (.error "a"), .act 1 (.error "b"), .act 0 (.error "c"), .act 1 (.next 5), .act 1 (.error "d")]
+    = [(0, .resubscribe), (1, .resubscribe), (0, .emit (.error "c")), (1, .emit (.next 5)), (1, .emit (.error "d"))] := by
+  decide
+
 /-! The row check is not vacuous: it rejects the shapes it is meant to reject. -/
 example : coldOk ⟨"operators/_x.py", "x_", "x_", "it", .oneshot, 1, some 3, false, true⟩ = false := by decide
 example : coldOk ⟨"operators/_x.py", "x_", "x_", "it", .oneshot, 0, none, true, true⟩ = false := by decide
